@@ -52,7 +52,7 @@ def run(tier, seed):
         gens += [("check+comment", F.consts(WithHist="TRUE", MaxOpts=4, Opts=F.optset(*(F.CORE_OPTS[:3] + F.CORE_OPTS[4:7] + [("check", "c1"), ("comment", "l1"), ("comment", "l2")]))), True),
                  ("defaults x orders", F.consts(WithHist="TRUE", TypeForms='{"vc"}', MaxOpts=3, Opts=F.optset(*(alldef + [("null", "notnull"), ("unique", "u"), ("ref", "r2")]))), True),
                  ("4 columns", F.consts(WithHist="TRUE", MaxCols=4, FocusAt=4, MaxOpts=2), True)]
-    seeds = [seed * 5 + i for i in range(2 if not thorough else 5)]
+    seeds = [seed * 5 + i for i in range(3 if not thorough else 5)]
     total = uniq = 0
     sample = None
     for what, cs, extra in gens:
